@@ -407,6 +407,10 @@ def _observe_edit(case, reg, default):
     def mkunit(s):
         return U["Unit"](s) if default else U["Unit"](s, registry=reg)
 
+    def mkqty(s):
+        # the other call form by which a string is used as a unit string
+        return (U["uq"](1.0, s) if default else U["uq"](1.0, s, registry=reg)).units
+
     ev = []
     for e in case["h"]:
         rec = dict(e)
@@ -430,6 +434,8 @@ def _observe_edit(case, reg, default):
                 s = EDIT_PROBES[e["p"] - 1]
                 o = _edit_unit(lambda: mkunit(s))
                 obs = {"k": "unit" if o["ok"] else "raise", "ok": o["ok"], "den": o["den"], "exc": o["exc"]}
+                oq = _edit_unit(lambda: mkqty(s))
+                rec["obsq"] = {"ok": oq["ok"], "den": oq["den"], "exc": oq["exc"]}
             elif op == "addsymbols":
                 ok, exc, nsobs = _edit_ns(reg)
                 obs = {"k": "ns" if ok else "raise", "ok": ok, "den": [], "exc": exc}
@@ -451,10 +457,13 @@ def _observe_edit(case, reg, default):
         reg._unit_object_cache.update(snap[1])
         reg._unit_system_id = snap[2]
 
-    final = {"rows": _edit_rows(reg), "probes": []}
+    final = {"rows": _edit_rows(reg), "probes": [], "probesq": []}
     for s in EDIT_PROBES:
         o = _edit_unit(lambda: mkunit(s))
         final["probes"].append({"ok": o["ok"], "den": o["den"], "exc": o["exc"]})
+        restore()
+        o = _edit_unit(lambda: mkqty(s))
+        final["probesq"].append({"ok": o["ok"], "den": o["den"], "exc": o["exc"]})
         restore()
     if default:
         ok, exc, nsobs = True, "", _edit_top()
@@ -465,7 +474,9 @@ def _observe_edit(case, reg, default):
     final["ns"] = nsobs
     # sweep (last: it fills the table with derived rows): documented names on untouched base symbols
     bad = []
-    full = len(case["h"]) <= 2  # longer histories (thorough tier): only the rows present in the table are compared (no parsing)
+    # full sweep (every name parsed) when the history is short and changed the table on the model (flag exported by TLC);
+    # otherwise (thorough tier's longer histories; table still the initial one) only the rows present in the table are compared
+    full = len(case["h"]) <= 2 and bool(case.get("tch", True))
     for n, (bv, dm, off) in U["edit_sweep"].items():
         try:
             if full:
